@@ -189,7 +189,7 @@ def judge_probe(ctx, mode, config, op, m, t, name, v, exp, r, wit, skip_decode=F
     res.count(f"c_probes:{mode}:{config}")
     if op == "E":
         if r.payload(1) != exp.hex():
-            res.violation(f"probe-c-encode:{'BE' if config.endswith('-BE') else 'LE'}:{mode.split('-')[0]}",
+            res.violation(f"probe-c-encode:{'BE' if '-BE' in config else 'LE'}:{mode.split('-')[0]}",
                           f"C {t.text()} pad={wit['pad']} {name} [{mode} {config}]: wire {r.payload(1)} expected {exp.hex()}", w)
     else:
         if skip_decode:
@@ -198,7 +198,7 @@ def judge_probe(ctx, mode, config, op, m, t, name, v, exp, r, wit, skip_decode=F
         got = sut_c.leaves_from_reply(m, r.payload(1))
         want = ref.leaf_values(m, ref.normalise(m, v))
         if got != want:
-            res.violation(f"probe-c-decode:{'BE' if config.endswith('-BE') else 'LE'}:{mode.split('-')[0]}",
+            res.violation(f"probe-c-decode:{'BE' if '-BE' in config else 'LE'}:{mode.split('-')[0]}",
                           f"C {t.text()} pad={wit['pad']} {name} [{mode} {config}]: decoded leaves {got} expected {want}", w)
 
 
